@@ -81,6 +81,8 @@ SPEC = [
          params=[("W", "Z"), ("num_taps", "Z")], ret="Z"),
     dict(group="02", name="num_subblocks", file="setigen/voltage/backend.py", cls="RawVoltageBackend", func="collect_data_block", what="nth:self.num_subblocks:1",
          params=[("T", "Z"), ("subblock_T", "Z")], ret="Z"),
+    dict(group="11", name="chi2_df", file="setigen/frame.py", cls="Frame", func="__init__", what="assign:self.chi2_df",
+         params=[("df", "Q"), ("dt", "Q")], ret="Z"),
     dict(group="11", name="stream_noise_var", file="setigen/voltage/data_stream.py", cls="DataStream", func="add_noise", what="assign:self.noise_std",
          params=[("noise_std", "Q"), ("v_std", "Q")], ret="Q", strip_call="xp.sqrt"),
 ]
